@@ -10,6 +10,7 @@ import (
 	"encoding/hex"
 	"encoding/json"
 	"fmt"
+	"io"
 	"os"
 	"strings"
 	"time"
@@ -36,11 +37,16 @@ type modelCfg struct {
 func (w *World) handleReal(input []byte) Obs { return w.handle(input) }
 
 func (w *World) handle(input []byte) Obs {
+	return w.handleWith(context.Background(), strings.NewReader(string(input)))
+}
+
+// handleWith: HandleReader on an arbitrary reader (segmented reads) under an arbitrary context (deadlines)
+func (w *World) handleWith(ctx context.Context, rd io.Reader) Obs {
 	w.reset()
 	var o Obs
 	done := lib.WithDeadline(20*time.Second, func() {
 		err, panicked, stack := lib.Try(func() error {
-			out, _, err := w.Server.HandleReader(context.Background(), strings.NewReader(string(input)))
+			out, _, err := w.Server.HandleReader(ctx, rd)
 			o.Out = out
 			return err
 		})
@@ -581,6 +587,9 @@ func main() {
 			inputs = append(inputs, g.input())
 		}
 		rn.transports(w, inputs)
+		rn.segmented(w, r.Fork(555), inputs)
 	}
+	// 5. request deadlines while batch entries queue for a pool slot
+	rn.deadlines(r.Fork(777))
 	lib.Finish(f, res)
 }
